@@ -305,8 +305,11 @@ Lemma parse_descriptor_cancel owner eid : eid < T32 ->
   parse_descriptor owner (ser_desc_payload (Seg eid None)) = Ok (expected_seg owner eid None).
 Proof.
   intros He. unfold T32 in He. cbn [ser_desc_payload]. unfold to_be32. cbn [app].
-  unfold parse_descriptor, buf_new. rewrite next4. red1. rewrite be32_of_4. red1.
+  unfold parse_descriptor, buf_new.
+  rewrite blen_mk, ?len_cons. match goal with |- context [?e <? 4] => replace (e <? 4) with false by (symmetry; apply N.ltb_ge; lia) end. red1.
+  rewrite next4. red1. rewrite be32_of_4. red1.
   rewrite be32_rt by (unfold CUEI; lia). change (CUEI =? segDescID) with true. red1.
+  rewrite blen_mk, ?len_cons. match goal with |- context [?e <? 5] => replace (e <? 5) with false by (symmetry; apply N.ltb_ge; lia) end. red1.
   rewrite next4. red1. rewrite be32_of_4. red1. rewrite be32_rt by lia.
   rewrite rb0. red1. change (N.land 255 128 =? 0) with false. red1. reflexivity.
 Qed.
@@ -321,8 +324,11 @@ Proof.
   cbn [ser_desc_payload]. unfold ser_seg_body.
   cbn [sb_comps sb_duration sb_restr sb_upid sb_type sb_num sb_expected sb_sub].
   unfold to_be32 at 1 2. rewrite <- ?app_assoc. cbn [app].
-  unfold parse_descriptor, buf_new. rewrite next4. red1. rewrite be32_of_4. red1.
+  unfold parse_descriptor, buf_new.
+  rewrite blen_mk, ?len_cons. match goal with |- context [?e <? 4] => replace (e <? 4) with false by (symmetry; apply N.ltb_ge; lia) end. red1.
+  rewrite next4. red1. rewrite be32_of_4. red1.
   rewrite be32_rt by (unfold CUEI; lia). change (CUEI =? segDescID) with true. red1.
+  rewrite blen_mk, ?len_cons. match goal with |- context [?e <? 5] => replace (e <? 5) with false by (symmetry; apply N.ltb_ge; lia) end. red1.
   rewrite next4. red1. rewrite be32_of_4. red1. rewrite be32_rt by lia.
   rewrite rb0. red1. change (N.land 127 128 =? 0) with true. red1.
   rewrite rb0. red1.
@@ -393,7 +399,7 @@ Qed.
 
 Lemma parse_command_ser c adj rest l : wf_command c -> supported_cmd c -> adj < 8589934592 -> exists l',
   parse_command (command_type c) adj (mkbuf (ser_command c ++ rest) l)
-  = Ok (match c with Null => 0 | _ => (st_val (cmd_time c) + adj) mod 8589934592 end, expected_cmd c, mkbuf rest l').
+  = Ok (match c with Null => adj | _ => (st_val (cmd_time c) + adj) mod 8589934592 end, expected_cmd c, mkbuf rest l').
 Proof.
   intros Hwf Hsup Hadj. destruct c as [|t|eid body|ty body]; cbn [command_type]; unfold parse_command.
   - exists l. reflexivity.
